@@ -6,7 +6,8 @@ RULE = ("every program TLC enumerates within the bounds (all_of/any_of over time
         "empty operand lists, operands already processed, operand failures) replayed on the real kernel, logs compared (resume instants, "
         "ConditionValue keys in order, exceptions); plus generated programs with condition trees up to depth 3, with and without probes, "
         "validated by TLC. non-trivial as in C01 plus programs delivering a condition value")
-KINDS = {"timeout": 4, "sleep": 2, "event": 3, "succeed": 3, "fail": 1.5, "cond": 5, "yield": 5, "spawn": 1.5, "condforeign": 0.2}
+KINDS = {"timeout": 4, "sleep": 2, "event": 3, "succeed": 3, "fail": 1.5, "cond": 5, "yield": 5, "spawn": 1.5, "condforeign": 0.2,
+         "interrupt": 0.8}
 
 
 def O(k, a=0, b=0, c=0, s=()):
